@@ -145,6 +145,10 @@ def run(ctx):
                 vals.append(gen.prim(base if base != "uuid" else "uuid"))
             if base == "string":
                 vals += [("str", b"x" * n) for n in (126, 127, 128, 16383, 16384, 32767, 32768)]
+                # few characters, many bytes: the limits are byte limits
+                vals += [("str", "\u00e9".encode() * 16383 + b"x"), ("str", "\u00e9".encode() * 16384),
+                         ("str", "\u20ac".encode() * 11000), ("str", "\U0001f600".encode() * 16383 + b"abc"),
+                         ("str", "\U0001f600".encode() * 16384)]
             if base == "bytes":
                 vals += [("bytes", bytes(n)) for n in (127, 128, 16384)]
             if base.startswith("timedelta"):
